@@ -150,6 +150,9 @@ def project_c02(code, rng, n_conv=10, full_synd_below=20, n_synd=10):
         tindex.append(sorted(int(v) for v in ti.values()))
     spos = {tuple(c): i for i, c in enumerate(sc)}
     rec['api'] = {
+        'coordinates_as_defined': bool(
+            [tuple(c) for c in qc] == [tuple(c) for c in code.get_qubit_coordinates()]
+            and [tuple(c) for c in sc] == [tuple(c) for c in code.get_stabilizer_coordinates()]),
         'n_stabilizers': int(code.n_stabilizers),
         'qubits_are_qubits': bool(all(code.is_qubit(tuple(c)) for c in qc)),
         'stabs_are_not_qubits': bool(not any(code.is_qubit(tuple(c)) for c in sc)),
@@ -180,6 +183,13 @@ def make_user_code(defn, rng):
         pool.add(tuple(int(x) for x in rng.integers(-3, 9, size=dim)))
     pool = list(pool)
     rng.shuffle(pool)
+    # coordinates are only ever used as dictionary keys: a user lattice may put
+    # qubits on half-integer points (edge midpoints) or hand over numpy integers
+    style = int(rng.integers(4))
+    if style == 1:
+        pool = [tuple(x / 2 for x in c) for c in pool]
+    elif style == 2:
+        pool = [tuple(np.int64(x) for x in c) for c in pool]
     qcoords = pool[:nq]
     scoords = pool[nq:]
     stab_ops = {scoords[i]: {qcoords[q]: p for q, p in defn['stabs'][i]}
@@ -257,7 +267,7 @@ def twin_export(subjects):
         out[codes.label(name, size, dname, kw)] = {
             'qcoords': raw['qcoords'], 'scoords': raw['scoords'],
             'stabs': r['stabs'], 'lx': r['lx'], 'lz': r['lz'],
-            'types': [code.stabilizer_type(tuple(s)) for s in raw['scoords']],
+            'types': [code.stabilizer_type(tuple(s)) for s in code.get_stabilizer_coordinates()],
         }
     return out
 
@@ -377,7 +387,7 @@ def run(tier):
                  'raw_stabs': [], 'stabs': [], 'xmask': [], 'zmask': [],
                  'is_css': True, 'hx': [], 'hz': [], 'hx_ok': True,
                  'hx_raises': False, 'conv': [], 'unconv': [], 'synd': [],
-                 'api': {'n_stabilizers': 0, 'qubits_are_qubits': True,
+                 'api': {'coordinates_as_defined': True, 'n_stabilizers': 0, 'qubits_are_qubits': True,
                          'stabs_are_not_qubits': True, 'stabs_are_stabs': True,
                          'qubits_are_not_stabs': True, 'typed_membership': True,
                          'type_index': [], 'qubit_index': [], 'stabilizer_index': []},
